@@ -225,11 +225,26 @@ package aggregate
 //@   loop#2 invariant forall j in old(len(b.counts)) .. i : b.counts[j] == 0
 //@   loop#2 invariant forall j in 0 .. old(len(b.counts)) : b.counts[j] == old(b.counts[j])
 //@   loop#2 invariant framed()
+// downscale by delta halvings: old bin number n = startBin + i moves to bin n >> delta (floor division by 2^delta), i.e. to
+// index (n >> delta) - (startBin >> delta) of the new window; `offset` must therefore be the TRUE modulus of startBin
+// (0 <= offset < 2^delta, startBin - offset divisible by 2^delta). Decided here, bit-precisely: every count is added to or
+// stored at exactly that index, which never lies above the index being read (in-place merge is safe), the new window is
+// exactly the image of the old one. Not decided: that the sums per new bin are complete (no summation operator).
 //@ func (b *expoBuckets) downscale(delta int32)
-//@   prop -
-//@   trusted "in-place merge of bucket counts: not yet under contract (listed as not decided)"
-//@   requires b != nil
-//@   modifies b, elemscap(b.counts)
+//@   prop C07
+//@   split delta 0 .. 30
+//@   overflow assumed
+//@   requires b != nil && delta >= 0 && delta <= 30 && len(b.counts) <= 1073741824
+//@   modifies b.startBin, b.counts, elems(b.counts)
+//@   ensures b.startBin == old(b.startBin) >> delta
+//@   ensures old(len(b.counts)) == 0 ==> len(b.counts) == 0
+//@   ensures old(len(b.counts)) >= 1 ==> len(b.counts) == ((int(old(b.startBin)) + old(len(b.counts)) - 1) >> int(delta)) - (int(old(b.startBin)) >> int(delta)) + 1
+//@   assert@store elem#* : idx / int(steps) == ((int(old(b.startBin)) + i) >> int(delta)) - (int(old(b.startBin)) >> int(delta)) && idx / int(steps) <= i && 0 <= idx / int(steps)
+//@   assert@store elem#1 : idx / int(steps) >= 1 && (((int(old(b.startBin)) + i - 1) >> int(delta)) < ((int(old(b.startBin)) + i) >> int(delta)))
+//@   assert@store elem#2 : ((int(old(b.startBin)) + i - 1) >> int(delta)) == ((int(old(b.startBin)) + i) >> int(delta))
+//@   loop#1 invariant 1 <= i && i <= len(b.counts) && len(b.counts) == old(len(b.counts)) && len(b.counts) > 1 && b.startBin == old(b.startBin) && samearray(b.counts, old(b.counts)) && delta >= 1
+//@   loop#1 invariant steps == (int32(1) << delta) && 0 <= offset && offset < steps && (int(old(b.startBin)) - int(offset)) % int(steps) == 0
+//@   loop#1 invariant framed()
 
 // record: the scale only ever decreases and never goes below -10; a measurement that cannot be represented (scale
 // underflow) is dropped WITHOUT being counted, so count stays equal to zero count + bucket counts
